@@ -50,7 +50,8 @@ func restorePackageState() {
 }
 
 func repoType(t reflect.Type) bool {
-	return t.PkgPath() == "" || strings.HasPrefix(t.PkgPath(), "github.com/robfig/soy")
+	// the sync shims are ours: their contents (a Map's entries, a Pool's items) are part of the state.
+	return t.PkgPath() == "" || strings.HasPrefix(t.PkgPath(), "github.com/robfig/soy") || strings.HasPrefix(t.PkgPath(), "verif/vrt/")
 }
 
 func settable(v reflect.Value) reflect.Value {
@@ -116,7 +117,11 @@ func cloneInto(dst, src reflect.Value, memo map[unsafe.Pointer]reflect.Value) {
 			tmp.Set(src)
 			src = tmp
 		}
+		shim := strings.HasPrefix(src.Type().PkgPath(), "verif/vrt/")
 		for i := 0; i < src.NumField(); i++ {
+			if shim && src.Type().Field(i).Name == "real" {
+				continue // the native primitive behind a shim is not state of the model (and must not be copied)
+			}
 			cloneInto(dst.Field(i), src.Field(i), memo)
 		}
 	case reflect.Ptr:
